@@ -218,6 +218,16 @@ def gen_case(seed, tier):
                 known[0].append(nm)
                 pow_terms += [('get', 0, nm), as_term(e)]
         pow_terms += [('get', 0, 'pc'), ('get', 0, 'half')]
+    # stratum: a unit named X and then one named Xs in the same store (pint would read an unknown "Xs" as the plural of X)
+    if rng.random() < 0.35:
+        st_ = rng.randrange(nstores)
+        xn = rng.choice(['m', 'half', 'ua', 'len', 'volt_'])
+        defs = rng.sample([('metre', '1'), ('second', '0.001'), ('ampere', '1e-6'), ('dimensionless', '3'), ('volt', '1000')], 2)
+        for nm_, (b_, k_) in zip((xn, xn + 's'), defs):
+            if nm_ not in known[st_]:
+                ops.append(['add', st_, nm_, ('mul', ('ref', b_), ('num', k_))])
+                known[st_].append(nm_)
+        pow_terms += [('get', st_, xn), ('get', st_, xn + 's')] + [('get', st_, b_) for b_, _ in defs]
     # stratum: named units with exponents whose decimal expansion never ends (1/3, 2/3), next to independent units of the
     # same dimension: the exponent must not be shortened on its way into the registry
     if rng.random() < 0.3:
